@@ -52,7 +52,9 @@ Definition tu_key (t : N) : key := [t].
 Definition mk_oracle (ppmode : bool) (t : N) (x : sx) : oracle :=
   match x with
   | SL [pps; upd; cs; cout] =>
-      {| o_lang := {| l_lang := 0; l_adv := 0 |};
+      (* the harness compiles unit 0 as c [gcc], 1 as c++ [gcc], 2 as c [clang], 3 as c++ [clang]: one
+         per-language key ("C/C++"), four per-language-and-compiler keys *)
+      {| o_lang := {| l_lang := 0; l_adv := t |};
          o_pp_key := if ppmode then Some (tu_key t) else None;
          o_manifest := t;
          (* `lookup_result_digest` leaves `updated` untouched since the fix "preprocessor cache compares the
